@@ -122,6 +122,13 @@ def texts(form, e1, e2, rnd):
     return messy, canon
 
 
+def same_value(x, y):
+    try:
+        return bool(np.allclose(np.asarray(x), np.asarray(y), equal_nan=True))
+    except Exception:
+        return repr(x) == repr(y)
+
+
 def _chunk(task):
     import logging
     import warnings
@@ -147,7 +154,10 @@ def _chunk(task):
             continue        # not a valid Python expression over these values (e.g. complex result): skip
         if np.ndim(want) == 0:
             continue        # a constant is not a term value: outside the property
-        want = np.asarray(want, dtype=float)
+        try:
+            want = np.asarray(want, dtype=float)
+        except (TypeError, ValueError):
+            continue        # complex / object results: not a numeric column, outside the property
         if not np.all(np.isfinite(want)):
             continue
         f = f"y ~ 0 + {messy}"
@@ -166,9 +176,8 @@ def _chunk(task):
         elif form == "rec":
             ga, gk = got_calls[-1]
             wa, wk = want_calls[-1]
-            if len(ga) != len(wa) or set(gk) != set(wk) or not all(np.allclose(np.asarray(x, dtype=float), np.asarray(y_, dtype=float), equal_nan=True)
-                                                                   for x, y_ in zip(ga[:2], wa[:2])) \
-                    or not np.allclose(np.asarray(gk["k"], dtype=float), np.asarray(wk["k"], dtype=float), equal_nan=True) or gk["s"] != wk["s"]:
+            if len(ga) != len(wa) or set(gk) != set(wk) or not all(same_value(x, y_) for x, y_ in zip(ga[:2], wa[:2])) \
+                    or not same_value(gk["k"], wk["k"]) or gk["s"] != wk["s"]:
                 err = "value: the callee received different positional/keyword arguments than under Python's eval"
         if err is None and names != [canon]:
             err = f"name: term is named {names}, expected the normalised source text {canon!r}"
